@@ -31,7 +31,7 @@ def init (s : OFO) (sp : SupSpec) : OFO × Res :=
 
 /-- supOFO.childAddSpec -/
 def childAddSpec (s : OFO) (name : Nat) (sig : Bool) : OFO × Res :=
-  if s.mode ≠ 0 then (s, .err .strategyActive)
+  if s.mode ≠ 0 ∨ s.shutdown = true then (s, .err .strategyActive)
   else if !validName name then (s, .err .invalid)
   else if (findName name s.spec).isSome then (s, .err .duplicate)
   else
@@ -40,7 +40,7 @@ def childAddSpec (s : OFO) (name : Nat) (sig : Bool) : OFO × Res :=
 
 /-- supOFO.childSpec (Supervisor.StartChild) -/
 def childSpec (s : OFO) (name : Nat) : OFO × Res :=
-  if s.mode ≠ 0 then (s, .err .strategyActive)
+  if s.mode ≠ 0 ∨ s.shutdown = true then (s, .err .strategyActive)
   else match findName name s.spec with
     | none => (s, .err .unknown)
     | some c =>
@@ -106,6 +106,7 @@ def childTerminated (s0 : OFO) (name pid : Nat) (reason : Reason) (now : Int) : 
 
 /-- supOFO.childEnable -/
 def childEnable (s : OFO) (name : Nat) : OFO × Res :=
+  if s.shutdown then (s, .err .strategyActive) else
   match findName name s.spec with
   | none => (s, .err .unknown)
   | some c =>
